@@ -456,6 +456,9 @@ class Executor:
         n = self.site_counts.get(('fresh', name), 0)
         self.site_counts[('fresh', name)] = n + 1
         v = z3.Int(name if n == 0 else '%s#%d' % (name, n))
+        log = self.__dict__.get('_fresh_log')
+        if log is not None:
+            log.add(v.decl().name())
         if constrain:
             lo, hi = CT(ty).rng()
             self.axioms.append(z3.And(v >= lo, v <= hi))
@@ -464,6 +467,9 @@ class Executor:
     def fresh_real(self, name):
         n = self.site_counts.get(('fresh', name), 0)
         self.site_counts[('fresh', name)] = n + 1
+        log = self.__dict__.get('_fresh_log')
+        if log is not None:
+            log.add(name if n == 0 else '%s#%d' % (name, n))
         return z3.Real(name if n == 0 else '%s#%d' % (name, n))
 
     def fresh_bool(self, name):
@@ -932,8 +938,23 @@ class Executor:
             return h(self, st, p, loc.ty, n)
         t = CT(loc.ty)
         if t.kind == 'int':
-            return self.fresh_int('mem_' + r.name, t.s if t.s in (
+            # two loads of the same location with no store to the region in
+            # between give the same value (CWRAP(x[i], m) loads x[i] twice)
+            ver = sum(1 for s_ in st.stores if s_[0] is r)
+            ck = ('memval', r.uid, z3.simplify(p.off).sexpr(), sz, ver)
+            hit = st.ghost.get(ck)
+            if hit is not None:
+                return hit
+            v = self.fresh_int('mem_' + r.name, t.s if t.s in (
                 'int', 'long', 'char') else TYPEDEF_INT.get(t.s, 'int'))
+            st.ghost[ck] = v
+            inv = st.ghost.get(('elem_inv', r.uid))
+            if inv is not None:
+                # a contract established a property of every element of this
+                # buffer (e.g. an index list checked against a dimension)
+                st.pc.append(inv(v.t))
+                st.ghost[('last_load', r.uid)] = v.t
+            return v
         if t.kind in ('float', 'complex'):
             return FltV(self.fresh_real('mem_' + r.name), loc.ty)
         return Opaque('mem ' + r.name)
@@ -1377,6 +1398,10 @@ class Executor:
         raise Unsupported('pointer op %s' % op)
 
     def alias_bool(self, o1, o2):
+        if getattr(o1, 'fresh', False) or getattr(o2, 'fresh', False):
+            # an object allocated during the call is distinct from every
+            # other object
+            return z3.BoolVal(False)
         key = tuple(sorted((o1.name, o2.name)))
         k = ('alias', key)
         if k not in self.site_counts:
@@ -1880,13 +1905,20 @@ class Executor:
         elif n.get('kind') == 'MemberExpr' and not n.get('isArrow'):
             self.lhs_vars(n['inner'][0], out)
 
-    def default_loop(self, s, st):
-        """Invariant rule with the automatic invariant of counting loops:
-        for (i = a; i < b; i++) whose bound is not assigned in the body gets
-        a <= i (and i < b in the body, i >= b at exit).  Everything assigned
-        in the loop is havoced.  No termination claim."""
+    def default_loop(self, s, st, links=None, probe=True, drop=()):
+        """Invariant rule with automatic invariants.  Everything assigned in
+        the loop is havoced.  Counting loops `for (c = a; c < b; c++)` whose
+        counter is not assigned in the body get a <= c (c < b in the body,
+        c == max(a, b) at the exit through the condition).  Linked induction
+        variables: a variable v whose net change over one iteration is the
+        same loop-invariant term d on every path through the body (guessed
+        from one symbolic execution of the body, then CHECKED to be preserved
+        in the run whose obligations count) gets v == v0 + (c - a) * d.  A
+        guess that is not preserved is dropped, never reported.  No
+        termination claim."""
         kind = s['kind']
         inner = s['inner']
+        s0, st0 = s, st.copy()
         if kind == 'ForStmt':
             init, cond, inc, body = inner[0], inner[2], inner[3], inner[4]
         elif kind == 'WhileStmt':
@@ -1913,7 +1945,24 @@ class Executor:
                 if rid not in body_assigned:
                     lows[rid] = v.t
 
-        def havoc(state):
+        # the unit counter of the loop, if any: c++ / c += 1 in the increment
+        counter = None
+        for rid in lows:
+            if inc is not None and self.is_increment_of(inc, rid, unit=True):
+                counter = rid
+                break
+        links = dict(links or {})     # rid -> (start term, per-iteration delta)
+
+        def havoc(state, syms=None):
+            new = {}
+            # facts about memory that the body invalidates (found by the
+            # probe) do not hold at the head of an arbitrary iteration
+            for k_ in drop:
+                state.ghost.pop(k_, None)
+            # cached loads are not valid across iterations
+            for k_ in [k_ for k_ in state.ghost if isinstance(k_, tuple) and
+                       k_ and k_[0] in ('memval', 'last_load')]:
+                del state.ghost[k_]
             for rid, (nm, ty) in assigned.items():
                 if rid in state.vars:
                     old = state.vars[rid]
@@ -1922,6 +1971,9 @@ class Executor:
                             ty).s in ('int', 'long', 'char') else
                             TYPEDEF_INT.get(CT(ty).s, 'int'))
                         state.vars[rid] = IntV(nv.t, ty)
+                        new[rid] = nv.t
+                        if syms is not None:
+                            syms.add(nv.t.decl().name())
                         if rid in lows:
                             state.pc.append(nv.t >= lows[rid])
                     elif isinstance(old, FltV):
@@ -1933,10 +1985,31 @@ class Executor:
                         state.vars[rid] = PtrV(old.region, self.fresh_int(
                             'loop_off_' + nm, 'long').t, old.ty, old.null,
                             old.obj)
+                        if syms is not None:
+                            syms.add(state.vars[rid].off.decl().name())
+            if counter is not None and counter in new:
+                for rid, (v0, d) in links.items():
+                    if rid in new and rid != counter:
+                        # the linked variable IS this term (no fresh symbol,
+                        # so that an enclosing loop can see its net change)
+                        t_ = v0 + (new[counter] - lows[counter]) * d
+                        state.vars[rid] = IntV(t_, state.vars[rid].ty)
+                        new[rid] = t_
+            return new
+
+        if links is None or probe:
+            pass
+        if probe and not links and (counter is not None or
+                                    self.has_call(body)):
+            guess, dropped = self.probe_links(st, assigned, lows, counter,
+                                              havoc, cond, body, inc)
+            if guess or dropped:
+                return self.default_loop(s0, st0, links=guess, probe=False,
+                                         drop=dropped)
         results = []
         # arbitrary iteration
         b = st.copy()
-        havoc(b)
+        start = havoc(b)
         c = tobool(self.ev(cond, b)) if cond.get('kind') != 'NullStmt' \
             else z3.BoolVal(True)
         if self.check(b.path(), [c]) != z3.unsat:
@@ -1950,6 +2023,22 @@ class Executor:
                             self.ev(inc, o.st)
                         except NeedFork:
                             pass
+                    if links and counter in start:
+                        # the guessed invariants must be preserved
+                        for rid, (v0, d) in links.items():
+                            ve = o.st.vars.get(rid)
+                            ce = o.st.vars.get(counter)
+                            if rid == counter or not isinstance(ve, IntV) \
+                                    or not isinstance(ce, IntV):
+                                continue
+                            inv = ve.t == v0 + (ce.t - lows[counter]) * d
+                            if self.check(o.st.path(), [z3.Not(inv)]) != \
+                                    z3.unsat:
+                                bad = dict(links)
+                                del bad[rid]
+                                return self.default_loop(
+                                    s0, st0, links=bad, probe=False,
+                                    drop=drop)
                     results.append(Outcome('dropped', o.st))
                 elif o.kind == 'break':
                     results.append(Outcome('fall', o.st))
@@ -1962,6 +2051,21 @@ class Executor:
             else z3.BoolVal(True)
         if self.check(e.path(), [z3.Not(ce)]) != z3.unsat:
             e.pc.append(z3.Not(ce))
+            if counter is not None:
+                bnd = self.upper_bound_of(cond, counter, e, assigned)
+                cv = e.vars.get(counter)
+                if bnd is not None and isinstance(cv, IntV):
+                    # the counter went up by one from its start until the
+                    # condition c < b failed
+                    lo = lows[counter]
+                    cend = z3.If(bnd >= lo, bnd, lo)
+                    e.pc.append(cv.t == cend)
+                    e.vars[counter] = IntV(cend, cv.ty)
+                    for rid, (v0, d) in links.items():
+                        if rid != counter and isinstance(e.vars.get(rid),
+                                                         IntV):
+                            e.vars[rid] = IntV(v0 + (cend - lo) * d,
+                                               e.vars[rid].ty)
             seen = set(id(o) for o in e.obligs)
             for r in results:
                 if r.kind == 'dropped':
@@ -1983,12 +2087,117 @@ class Executor:
                     self.orphans.extend(r.st.obligs)
         return [r for r in results if r.kind != 'dropped']
 
-    def is_increment_of(self, inc, rid):
+    def upper_bound_of(self, cond, counter, st, assigned):
+        """b when cond is `counter < b` with b not assigned in the loop"""
+        n = cond
+        while n.get('kind') in ('ParenExpr', 'ImplicitCastExpr'):
+            n = n['inner'][0]
+        if n.get('kind') != 'BinaryOperator' or n.get('opcode') != '<':
+            return None
+        l, r = n['inner']
+        while l.get('kind') in ('ParenExpr', 'ImplicitCastExpr'):
+            l = l['inner'][0]
+        if l.get('kind') != 'DeclRefExpr' or l.get('refid') != counter:
+            return None
+        used = {}
+        self.refs_in(r, used)
+        if any(k in assigned for k in used):
+            return None
+        if self.has_call(r):
+            return None
+        try:
+            st.pure += 1
+            try:
+                v = self.ev(r, st)
+            finally:
+                st.pure -= 1
+        except (Unsupported, Impure, NeedFork):
+            return None
+        return toint(v).t if isinstance(v, (IntV, BoolV)) else None
+
+    def refs_in(self, n, out):
+        if n.get('kind') == 'DeclRefExpr' and n.get('refid'):
+            out[n['refid']] = True
+        for c in n.get('inner', []) or []:
+            if isinstance(c, dict):
+                self.refs_in(c, out)
+
+    def has_call(self, n):
+        if n.get('kind') == 'CallExpr':
+            return True
+        return any(self.has_call(c) for c in (n.get('inner') or [])
+                   if isinstance(c, dict))
+
+    def probe_links(self, st, assigned, lows, counter, havoc, cond, body,
+                    inc):
+        """one symbolic execution of the loop body whose obligations are
+        thrown away: returns {rid: (start term, delta)} for the variables
+        whose change over the iteration is the same loop-invariant term on
+        every path"""
+        from engine.smt import symbols
+        saved = (len(getattr(self, 'orphans', []) or []),
+                 len(getattr(self, 'abandoned', []) or []))
+        old_log = self.__dict__.get('_fresh_log')
+        self._fresh_log = syms = set() if old_log is None else old_log
+        try:
+            b = st.copy()
+            start = havoc(b, syms)
+            c = tobool(self.ev(cond, b)) if cond.get('kind') != 'NullStmt' \
+                else z3.BoolVal(True)
+            if self.check(b.path(), [c]) == z3.unsat:
+                return {}, ()
+            b.pc.append(c)
+            deltas = {}
+            n_out = 0
+            dropped = set()
+            facts = [k_ for k_ in st.ghost if isinstance(k_, tuple) and k_
+                     and k_[0] == 'elem_inv']
+            for o in self.exec_stmt(body, b):
+                if o.kind not in ('fall', 'continue'):
+                    continue
+                n_out += 1
+                for k_ in facts:
+                    if k_ not in o.st.ghost:
+                        dropped.add(k_)
+                if inc is not None and inc.get('kind') != 'NullStmt':
+                    self.ev(inc, o.st)
+                for rid, t0 in start.items():
+                    ve = o.st.vars.get(rid)
+                    if not isinstance(ve, IntV):
+                        deltas[rid] = None
+                        continue
+                    d = z3.simplify(ve.t - t0)
+                    if symbols(d) & syms:
+                        deltas[rid] = None
+                    elif rid not in deltas:
+                        deltas[rid] = d
+                    elif deltas[rid] is not None and not z3.eq(deltas[rid],
+                                                                 d):
+                        deltas[rid] = None
+            if not n_out:
+                return {}, ()
+            out = {}
+            for rid, d in deltas.items():
+                v0 = st.vars.get(rid)
+                if d is not None and rid != counter and isinstance(v0, IntV) \
+                        and counter is not None:
+                    out[rid] = (v0.t, d)
+            return out, tuple(sorted(dropped, key=repr))
+        except (Unsupported, NeedFork, Impure, NeedInline):
+            return {}, ()
+        finally:
+            self._fresh_log = old_log
+            if hasattr(self, 'orphans'):
+                del self.orphans[saved[0]:]
+            if hasattr(self, 'abandoned'):
+                del self.abandoned[saved[1]:]
+
+    def is_increment_of(self, inc, rid, unit=False):
         n = inc
         while n.get('kind') in ('ParenExpr',):
             n = n['inner'][0]
         if n.get('kind') == 'BinaryOperator' and n.get('opcode') == ',':
-            return any(self.is_increment_of(c, rid) for c in n['inner'])
+            return any(self.is_increment_of(c, rid, unit) for c in n['inner'])
         if n.get('kind') == 'UnaryOperator' and n.get('opcode') == '++':
             t = n['inner'][0]
             return t.get('kind') == 'DeclRefExpr' and t.get('refid') == rid
@@ -1998,8 +2207,8 @@ class Executor:
             if t.get('kind') == 'DeclRefExpr' and t.get('refid') == rid:
                 while v.get('kind') in ('ImplicitCastExpr', 'ParenExpr'):
                     v = v['inner'][0]
-                return v.get('kind') == 'IntegerLiteral' and int(
-                    v['value']) > 0
+                return v.get('kind') == 'IntegerLiteral' and (
+                    int(v['value']) == 1 if unit else int(v['value']) > 0)
         return False
 
 
